@@ -47,7 +47,10 @@ RULE = (
     "complex step (complex128 database keys; perturbed executions are crash points too); 1-2 design variables, "
     "polynomial/sine objective (one case in four maximised) and one inequality constraint (none for L-BFGS-B); backup "
     "policy (each function call / each iteration / both); initial file state (absent / prefix left by an earlier "
-    "crashed run and loaded / such a prefix erased with erase=True); restart with reset_iteration_counters False "
+    "crashed run and loaded / such a prefix erased with erase=True / script that first executes the scenario without "
+    "backup - 3 custom samples, or the algorithm with max_iter=3 - and then calls set_optimization_history_backup("
+    "load=True) on the non-empty database before executing again: its crash points are the executions after that "
+    "call and the restart is a re-run of the same script); restart with reset_iteration_counters False "
     "(3 in 4) or True. A reference child logs every discipline execution and, before the listeners of every "
     "Database.store run, the database state that store produces; EVERY crash point k=1..K is then run in a forked "
     "child that dies with os._exit(17) at the start of execution k, the backup is loaded with Database.from_hdf and "
@@ -74,6 +77,8 @@ ASSUMPTIONS = [
     "reset_iteration_counters=False an MDO restart (normalised or not) must end with at most max_iter entries",
     "approximated gradients: one variable and budget 5 (each perturbed execution is an enumerated crash point); a "
     "chain is replaced by the single discipline there",
+    "script that sets the backup after a first execution: the database right after load=True must be the first "
+    "batch completed / followed by the backup's entries, executions made before that call are not rework",
     "sequential execution (n_processes=1), deterministic algorithms (LHS with an explicit seed)",
     "enable_progress_bar=False in every run: tqdm's process-shared lock and monitor thread must not be inherited by "
     "forked children that are killed (a harness precaution, the backup does not depend on the bar)",
@@ -126,7 +131,10 @@ def configs(draw, algo: str):
         "t": draw(st.integers(0, 1)),
         "r": draw(st.integers(-2, 4)),
         "policy": draw(st.sampled_from(["call", "iter", "call", "iter", "both"])),
-        "initial": draw(st.sampled_from(["absent", "absent", "prefix_load", "prefix_load", "prefix_erase"])),
+        "initial": draw(st.sampled_from(["absent", "absent", "prefix_load", "prefix_load", "prefix_erase", "warm_load", "warm_load"])),
+        # "warm_load": the script first executes the scenario without backup (3 custom samples / the algorithm with
+        # max_iter=3), then calls set_optimization_history_backup(load=True) on a non-empty database and executes again
+        "warm_samples": draw(st.lists(st.lists(st.integers(0, GRID), min_size=n_x, max_size=n_x), min_size=3, max_size=3)),
         "prefix_at": draw(st.integers(0, 30)),
         "normalize": draw(st.booleans()) if kind == "mdo" else False,
         "budget": budget,
@@ -146,6 +154,7 @@ def configs(draw, algo: str):
         if p["diff"] != "user":
             # every perturbed execution is a crash point too: keep these runs small (one variable, smallest budget)
             p.update(n_x=1, budget=5, x0=p["x0"][:1], a=p["a"][:1], w=p["w"][:1], s=p["s"][:1])
+            p["warm_samples"] = [idx[:1] for idx in p["warm_samples"]]
             if p["structure"] == "chain":
                 p["structure"] = "single"  # a perturbation of a chain runs every link: up to 90 crash points
             if algo == "CustomDOE":
@@ -305,6 +314,16 @@ def algo_settings(p, reset: bool | None):
     return kw
 
 
+def warm_settings(p):
+    """The first execution of the "warm_load" script shape (no backup is set yet)."""
+    if p["kind"] == "mdo":
+        kw = algo_settings(dict(p, budget=3), None)
+    else:
+        kw = {"algo_name": "CustomDOE", "eval_jac": p["eval_jac"], "enable_progress_bar": False,
+              "samples": np.array([_grid_point(p, idx) for idx in p["warm_samples"]])}
+    return kw
+
+
 def backup_kwargs(p):
     return {
         "at_each_function_call": p["policy"] in ("call", "both"),
@@ -324,7 +343,9 @@ def snapshot(db):
 def child_run(p, path, mode: str, crash_at: int | None, record_stores: bool):
     """Run the scenario of ``p`` with its backup on ``path``.
 
-    mode: "fresh" (file used as found, must be absent), "load" (load=True), "erase" (erase=True).
+    mode: "fresh" (file used as found, must be absent), "load" (load=True), "erase" (erase=True),
+    "warm" (the script executes once without backup, then sets the backup with load=True - the file may or may
+    not exist - and executes again; the same script serves for the crashed run and for its re-run).
     """
     from gemseo.algos.database import Database
 
@@ -340,8 +361,9 @@ def child_run(p, path, mode: str, crash_at: int | None, record_stores: bool):
     scenario = build_scenario(p, hook)
     problem = scenario.formulation.optimization_problem
     database = problem.database
-    scenario.set_optimization_history_backup(path, load=mode == "load", erase=mode == "erase", **backup_kwargs(p))
-    initial = snapshot(database)
+    if mode != "warm":
+        scenario.set_optimization_history_backup(path, load=mode == "load", erase=mode == "erase", **backup_kwargs(p))
+        initial = snapshot(database)
     if record_stores:
         original_store = Database.store
 
@@ -365,14 +387,22 @@ def child_run(p, path, mode: str, crash_at: int | None, record_stores: bool):
             return None
 
         Database.store = store  # this process only (forked child)
+    n_exec_before = 0
+    if mode == "warm":
+        scenario.execute(**warm_settings(p))
+        n_exec_before = state["n"]
+        scenario.set_optimization_history_backup(path, load=True, **backup_kwargs(p))
+        initial = snapshot(database)
+        events.append(("backup_set",))
     # the first run of an absent/erased file is a plain run; runs that load follow the drawn restart protocol
-    scenario.execute(**algo_settings(p, p["reset"] if mode == "load" else None))
+    scenario.execute(**algo_settings(p, p["reset"] if mode in ("load", "warm") else None))
     result = scenario.optimization_result
     return {
         "events": events,
         "initial": initial,
         "final": snapshot(database),
         "n_exec": state["n"],
+        "n_exec_before": n_exec_before,  # executions before the backup was set ("warm" script shape)
         "ineq_tolerance": float(problem.tolerances.inequality),
         "objective_name": str(problem.objective.name),  # "f", or "-f" when maximising (the stored, minimised quantity)
         "result": {
@@ -517,11 +547,14 @@ def load_backup(path):
 def expected_backup(events, initial_file, policy: str, k: int):
     """The content the policy implies at the start of execution k (None: file absent or empty)."""
     expected = initial_file
+    armed = not any(ev[0] == "backup_set" for ev in events)  # stores made before the backup is set write nothing
     for ev in events:
         if ev[0] == "exec":
             if ev[1] == k:
                 return expected
-        elif policy in ("call", "both") or ev[1]:
+        elif ev[0] == "backup_set":
+            armed = True
+        elif armed and (policy in ("call", "both") or ev[1]):
             expected = ev[2]
     raise HarnessError(f"C12: the reference run has no execution {k}")
 
@@ -582,7 +615,8 @@ def _case(p, ctx, work, workers):
 
     # ---- from-scratch reference run (the reference itself when the file is absent or erased)
     path0 = os.path.join(work, "scratch_ref.h5")
-    (code, doc), = run_children([(lambda: child_run(p, path0, "fresh", None, True), os.path.join(work, "scratch_ref.pkl"))], 1)
+    warm = initial_mode == "warm_load"
+    (code, doc), = run_children([(lambda: child_run(p, path0, "warm" if warm else "fresh", None, True), os.path.join(work, "scratch_ref.pkl"))], 1)
     scratch_ref = child_document(ctx, code, doc, f"uninterrupted run [{desc}]")
     k0 = scratch_ref["n_exec"]
     if k0 == 0:
@@ -590,7 +624,7 @@ def _case(p, ctx, work, workers):
 
     # ---- the earlier run's prefix
     prefix_path, prefix_snapshot, prefix_k = None, None, None
-    if initial_mode != "absent":
+    if initial_mode in ("prefix_load", "prefix_erase"):
         prefix_k = 2 + p["prefix_at"] % (k0 - 1) if k0 >= 2 else 1
         prefix_path = os.path.join(work, "prefix.h5")
         (code, doc), = run_children([(lambda: child_run(p, prefix_path, "fresh", prefix_k, False), os.path.join(work, "prefix.pkl"))], 1)
@@ -620,14 +654,16 @@ def _case(p, ctx, work, workers):
     else:
         ref = scratch_ref
         initial_file = None
-        run_mode = "erase" if (initial_mode == "prefix_erase" and prefix_snapshot is not None) else "fresh"
+        run_mode = "erase" if (initial_mode == "prefix_erase" and prefix_snapshot is not None) else ("warm" if warm else "fresh")
     n_full = len(ref["final"])
-    n_crash = ref["n_exec"]
+    # "warm" script shape: the crash points are the executions after the backup was set (before, there is no file)
+    first_k = ref["n_exec_before"] + 1 if warm else 1
+    n_crash = ref["n_exec"] - first_k + 1
     ctx.cls(f"kind_{p['kind']}", f"algo_{p['algo']}", f"policy_{policy}", f"initial_{initial_mode}", f"structure_{structure_of(p)}", f"differentiation_{p.get('diff', 'user')}",
             "with_observable" if p.get("observable") else "without_observable",
             "normalized" if p["normalize"] else "not_normalized", "restart_reset_counters" if p["reset"] else "restart_keeps_counters",
             "maximize" if p.get("maximize") else "minimize")
-    if n_crash == 0:
+    if n_crash <= 0:
         ctx.cls("loaded_prefix_leaves_nothing_to_execute")
         ctx.evaluations -= 1  # no crash point in this configuration
         return
@@ -640,11 +676,11 @@ def _case(p, ctx, work, workers):
     # ---- every crash point
     dirs = []
     tasks = []
-    for k in range(1, n_crash + 1):
+    for k in range(first_k, first_k + n_crash):
         d = os.path.join(work, f"k{k}")
         os.mkdir(d)
         path = os.path.join(d, "backup.h5")
-        if run_mode != "fresh":
+        if run_mode in ("load", "erase"):
             shutil.copyfile(prefix_path, path)
         dirs.append((k, d, path))
         tasks.append((lambda k=k, path=path: child_run(p, path, run_mode, k, False), os.path.join(d, "crash.pkl")))
@@ -684,7 +720,8 @@ def _case(p, ctx, work, workers):
             ctx.cls("crash_point_last_entry_partial")
 
     # ---- restart from every crashed backup
-    tasks = [(lambda path=path: child_run(p, path, "load", None, False), os.path.join(d, "restart.pkl")) for k, d, path in dirs]
+    restart_mode = "warm" if warm else "load"  # the re-run of the same script / the documented restart
+    tasks = [(lambda path=path: child_run(p, path, restart_mode, None, False), os.path.join(d, "restart.pkl")) for k, d, path in dirs]
     restart_out = run_children(tasks, workers)
     for (k, d, path), (code, doc) in zip(dirs, restart_out):
         rs = child_document(ctx, code, doc, f"restart after the crash at execution {k} [{desc}]", k=k)
@@ -696,7 +733,19 @@ def _case(p, ctx, work, workers):
             by_point.setdefault(phys_key(x), i)
 
         # loaded entries are kept, first and in order
-        msg = diff_snapshots(rs["initial"], backup)
+        expected_initial = backup
+        if warm:
+            # the script already holds its first batch when it loads: those entries, completed / followed by the backup's
+            # (a backup written after the first batch starts with them, so this is the backup itself unless it is empty)
+            expected_initial = [(x, dict(vals)) for x, vals in ref["initial"]]
+            for x_b, vals_b in backup:
+                for x_e, vals_e in expected_initial:
+                    if same_key(x_e, x_b):
+                        vals_e.update(vals_b)
+                        break
+                else:
+                    expected_initial.append((x_b, dict(vals_b)))
+        msg = diff_snapshots(rs["initial"], expected_initial)
         ctx.check(msg is None, "loaded_kept", f"restart after crash {k}: database after load=True differs from the backup: {msg}", k=k)
         msg = diff_snapshots(final, backup, prefix_only=True, subset_names=True)
         ctx.check(msg is None, "loaded_kept", f"restart after crash {k}: loaded entries changed at the end of the run: {msg}", k=k)
@@ -705,6 +754,8 @@ def _case(p, ctx, work, workers):
         in_backup = {phys_key(x): (x, vals) for x, vals in backup}
         n_replayed = 0
         for ev in rs["events"]:
+            if ev[0] != "exec" or ev[1] <= rs["n_exec_before"]:
+                continue  # executions of the script before it set (and loaded) the backup
             _, _, name, x = ev
             hit = in_backup.get(phys_key(x)) if phys_key(x) is not None else None
             if hit is None:
